@@ -386,12 +386,30 @@ def config_from_fits(filename: str) -> NssConfig:
     def s(key: str):
         return v("simulation " + key)
 
+    # Only the parameters of the stored spectrum type are present in the header.
+    spectrum_keys = {
+        "monospectrum": ("log_nu_energy",),
+        "powerspectrum": ("index", "lower_bound", "upper_bound"),
+    }
+    spectrum = {"id": s("spectrum id")}
+    for key in spectrum_keys.get(spectrum["id"], ()):
+        spectrum[key] = s("spectrum " + key)
+
+    # A disabled (None) ionosphere is stored as a single valueless keyword.
+    if "Config simulation ionosphere" in h:
+        ionosphere = None
+    else:
+        ionosphere = {
+            "total_electron_content": s("ionosphere total_electron_content"),
+            "total_electron_error": s("ionosphere total_electron_error"),
+        }
+
     c = {
         "detector": {
             "initial_position": {
                 "altitude": d("initial_position altitude"),
                 "latitude": d("initial_position latitude"),
-                "longitude": d("initial_position latitude"),
+                "longitude": d("initial_position longitude"),
             },
             "name": d("name"),
             "optical": {
@@ -411,17 +429,11 @@ def config_from_fits(filename: str) -> NssConfig:
             "angle_from_limb": s("angle_from_limb"),
             "cherenkov_light_engine": s("cherenkov_light_engine"),
             "cloud_model": {"id": s("cloud_model id")},
-            "ionosphere": {
-                "total_electron_content": s("ionosphere total_electron_content"),
-                "total_electron_error": s("ionosphere total_electron_error"),
-            },
+            "ionosphere": ionosphere,
             "max_azimuth_angle": s("max_azimuth_angle"),
             "max_cherenkov_angle": s("max_cherenkov_angle"),
             "mode": s("mode"),
-            "spectrum": {
-                "id": s("spectrum id"),
-                "log_nu_energy": s("spectrum log_nu_energy"),
-            },
+            "spectrum": spectrum,
             "tau_shower": {
                 "etau_frac": s("tau_shower etau_frac"),
                 "id": s("tau_shower id"),
